@@ -65,6 +65,10 @@ T = {
     text="Failing calls of 10 kinds are injected into generated call histories (ill-typed construction; ill-typed substitution with the offending key ranging over all symbols of the traversed formula; unsupported operator reached at every nesting depth inside cnf / Shannon QE; unknown size measure; undefined symbol; malformed or ill-typed SMT-LIB given to a long-lived parser inside let / quantifier / define-fun / mid-script; non-constant array index; function interpretation with free variables). A twin environment runs the history without the calls that raised; then the complete list of 21 probe services (+ the long-lived parser) runs on both and every outcome must be equal.",
     note="A call is a failing call iff it raises in the environment under test; failure positions are enumerated through the choice of the offending symbol / depth, not by instrumenting walkers. Symbols that a failed script legitimately created in the environment are not reused by the probes with another sort.",
     technique="fault injection into generated histories with a twin environment as oracle"),
+ "C20": dict(level="exploration", design="4/C20",
+    text="23 formula families (every nestable operator family; full sharing with tree size 2^n, Fibonacci sharing, chains) x 17 operations (construction with type checking, simplify, substitute, analyses, logic detection, size, nnf, prenex, aig, DAG print, print-parse). Work is the number of Python function calls counted from outside with sys.setprofile: an abort budget of 6000 x distinct nodes stops exponential traversals, a doubling test (work(2n) <= 2.6 work(n)) detects super-linear growth, and every operation must succeed on depth-20000 chains under the default recursion limit.",
+    note="Work measure = Python-level calls (not wall time). Families avoid the documented flattening of nested Plus/Times/And/Or whose *result* is legitimately quadratic; only the TREE/LEAVES/DEPTH size measures are measured; finitely many sizes.",
+    technique="parametrised family generation with externally counted work (sys.setprofile), abort budgets and doubling tests"),
 }
 
 checks, na = [], []
